@@ -56,7 +56,7 @@ Bodies14_3 == [1..1 -> { b \in SeqsUpTo(A14 \cup {Lit}, 3) : \E i \in 1..Len(b) 
 ImpA(G, SP, POS) == { Imp(g, sp, pos) : g \in G, sp \in SP, pos \in POS }
 IncA(G, SP, POS) == { Inc(g, sp, pos) : g \in G, sp \in SP, pos \in POS }
 (* positions x spellings x cwds on a two-file project *)
-Big09   == ImpA({1, 2}, {1, 2, 3}, Positions) \cup IncA({2}, {1, 2}, {"top", "callback", "moduleOut", "failMsg"})
+Big09   == ImpA({1, 2}, {1, 2, 3}, Positions) \cup IncA({2}, {1, 2}, {"top", "callback", "moduleOut", "failMsg", "fmtExpr"})
 Small09 == ImpA({2}, {0, 2}, {"top", "nested", "callback"})
 Lib09   == { << >> } \cup { << s >> : s \in ImpA({1}, {1}, {"top", "nested"}) }
 WithOut(b) == b \o << Out(1, "ok") >>          \* the entry file writes what it imported
